@@ -119,7 +119,7 @@ package bytesconv
 //@   modifies r.pos, r.avail, r.failed, mem
 //@   allocates
 //@   ensures old(r.failed) ==> r.failed
-//@   ensures err == nil ==> 0 <= n
+//@   ensures err == nil ==> 0 <= n && n < 1152921504606846976
 //@   assert before Skip#3: 0 <= k && k < 16
 //@   assert before Skip#3: i <= 14 && n < 72057594037927936 && k == hexv(wire(r, r.pos))
 //@   top-ensures err == nil && !r.failed ==> old(r.pos) < r.pos && r.pos <= old(r.pos) + 15 && 0 <= n && n == foldHexW(r, old(r.pos), r.pos, 0) && hexv(wire(r, r.pos)) == 16
